@@ -23,30 +23,35 @@ PROPS["C14"]["level_text"] += " " + (
     "distance cache and last_insert_len), each call being covered by the loop theorem in its local view (cbr_open: the "
     "decoder's ring after a call IS the returned dist_cache) and embedded into the whole meta-block (openSteps_embed); the "
     "closed array of the whole meta-block satisfies cmdOK, lockstep, CmdsWF and PayloadOK, hence the IR replays to the "
-    "input. NOT covered by `Merged`: extend_last_command, which encode_data runs between two merged calls when the "
-    "previous call ended exactly on a copy (last_insert_len = 0) and which may lengthen that last copy over the new input; "
-    "`Merged` describes the call sequences in which it changes nothing (always when literals are pending at the boundary). "
+    "input. extend_last_command (run by encode_data between two merged calls when the previous call ended exactly on a "
+    "copy, last_insert_len = 0; lengthens that copy while the new input continues it) is the constructor Merged.extend: "
+    "decoder-level hypotheses (the last command is executed as an LZ77 copy at distance D - LastCopy -, copying n more "
+    "bytes at D reproduces the next n input bytes, the new command has the same insert length and distance fields and "
+    "copy length / code n larger and is cmdOK/DistWF) under which decStep_extend shows the decoder executes the longer "
+    "command, so merged_metablock_q29 covers call sequences with extensions; that the real function's tests imply "
+    "these hypotheses is derived only for the FIELD part (merged_extend_of_e2e / extendLastCommand_fields: whatever "
+    "w-e2e's tied model BV.E2E.extendLastCommand returns has the old insert length and distance fields and copy length / "
+    "code exactly n larger, absent a carry out of the 25-bit field), not for LastCopy and the byte agreement. "
     "A two-call run (24 + 8 bytes, 12 literals carried over) is the non-vacuity example."
 )
 PROPS["C14"]["level_note"] += " " + (
     "Scope of the discharged payload hypothesis (C14Chain): quality 2-9, NPOSTFIX = NDIRECT = 0 (every non-FONT mode), any "
-    "number of CreateBackwardReferences calls per logged meta-block as long as extend_last_command (un-modelled: it rewrites "
-    "copy_len_ and cmd_prefix_ of the last command at a call boundary with last_insert_len = 0 when the new input continues "
-    "that copy) leaves the last command alone (`Merged`; that encode_data threads the calls as `Merged.call` demands - "
-    "position = history + bytes searched so far, cache and last_insert_len handed on - is read off encode.rs, not derived "
+    "number of CreateBackwardReferences calls per logged meta-block, with extend_last_command steps between them "
+    "(`Merged.call` / `Merged.extend`; that encode_data threads the calls as `Merged.call` demands - position = history + "
+    "bytes searched so far, cache and last_insert_len handed on - and that extend_last_command's own tests establish "
+    "Merged.extend's decoder-level hypotheses is read off encode.rs, not derived "
     "from w-stream's model), the chain's own hypotheses BlockOK (the ring buffer holds history ++ block "
     "from one window before the block: RingViewW, which ring_view_w proves from RingOK), OpsOK, DictFaithful (the "
     "looked-up static-dictionary slots agree with the word oracle; vacuous with use_dictionary off) and C14's OracleOK "
-    "for the SAME oracle. PayloadOK stays a hypothesis for quality 10/11 (Zopfli: C01zzzzy's model), FONT mode and "
-    "meta-blocks in which extend_last_command lengthened a command, "
+    "for the SAME oracle. PayloadOK stays a hypothesis for quality 10/11 (Zopfli: C01zzzzy's model), and FONT mode, "
     "and is judged there by the independent IR replay of engine `recoder` on every run."
 )
 PROPS["C14"]["assumptions"] = [
     ("PayloadOK: the RFC decoder run on the encoder's command array with the encoder's history reproduces the meta-block "
      "input - PROVED for quality 2-9 / NPOSTFIX = NDIRECT = 0, one call per meta-block (payload_ok_q29) or any number of "
-     "merged calls without an effective extend_last_command (merged_metablock_q29), relative to C01Chain's BlockOK (per "
-     "call), OpsOK, DictFaithful; unproved (exercised) for quality 10/11, FONT mode and commands lengthened by "
-     "extend_last_command")
+     "merged calls with extend_last_command steps (merged_metablock_q29), relative to C01Chain's BlockOK (per call), "
+     "OpsOK, DictFaithful and, per extension, Merged.extend's decoder-level hypotheses; unproved (exercised) for quality "
+     "10/11 and FONT mode")
     if a.startswith("PayloadOK:") else
     (a + "; inside the scope of C14Chain (quality 2-9, NPOSTFIX = NDIRECT = 0) CmdsWF is derived from cmdOK for the "
          "commands CreateBackwardReferences emits and from the constant fields of init_insert (cmds_wf_q29), with no "
